@@ -360,7 +360,7 @@ pub fn run(thorough: bool) -> Report {
         ],
     ];
     let (stats, viol) = bfs(&mk, &roots, &alpha, depth, &check_transition, None, 40_000_000);
-    if stats.events_enabled.len() < alpha.len() {
+    if viol.is_empty() && stats.events_enabled.len() < alpha.len() {
         machinery("vacuous: not every alphabet event was enabled");
     }
     let mut seen = HashSet::new();
